@@ -32,7 +32,7 @@ import simlib as S
 
 PID = "C06"
 DRIVER = Path(__file__).resolve().parent / "c06_impl.py"
-TARGETS = ["Sim/Case.vo", "Sim/ReinitProofs.vo", "Sim/ReproProofs.vo", "Streams/Stream.vo", "Props/C06.vo"]
+TARGETS = ["Sim/Case.vo", "Sim/ReinitProofs.vo", "Sim/ReproProofs.vo", "Streams/Stream.vo", "Streams/Seeds.vo", "Props/C06.vo"]
 KIND_OF_SID = ["tally", "persistent", "counter"]
 HIST_KINDS = ["never", "stepped", "bounded", "ended", "fault", "stop", "endrepl", "cleanup", "othermodel", "multi", "asap"]
 COMPONENTS = ["trace", "outs", "ntfs", "obs", "canc", "dlv", "draws"]
@@ -529,13 +529,47 @@ def raw_outputs(seed, n):
     return [int(r.random() * TWO53) for _ in range(n)]
 
 
+def name_hash(nm):
+    h = 0
+    for ch in nm:
+        h = (31 * h + ord(ch)) & 0xFFFFFFFF
+    return h
+
+
+def effective_seeds(m):
+    """the seed every stream has when construct_model is done: given directly, or set by the library's updaters
+    (StreamSeedUpdater with its SimpleStreamUpdater fallback; the prediction is checked against Streams/Seeds.v)"""
+    if m.get("stream_mode") != "updater":
+        return [[nm, sd] for nm, sd in m.get("streams", [])]
+    up = m["updater"]
+    out = []
+    for nm, orig in m.get("streams", []):
+        if up["kind"] == "seed" and nm in up.get("seeds", {}):
+            out.append([nm, up["seeds"][nm][up["nr"]]])
+        else:
+            out.append([nm, orig + up["nr"] * (1_000_037 + name_hash(nm))])
+    return out
+
+
+def seed_checks(m):
+    """Coq terms (simple?, table, name, original seed, replication number, seed used by the harness)"""
+    if m.get("stream_mode") != "updater":
+        return []
+    up = m["updater"]
+    tbl = C.clist(f"({C.clist(C.cz(ord(ch)) for ch in k)}, {C.clist(C.cz(x) for x in v)})"
+                  for k, v in up.get("seeds", {}).items()) if up["kind"] == "seed" else "[]"
+    eff = dict(effective_seeds(m))
+    return [f"({C.cbool(up['kind'] == 'simple')}, {tbl}, {C.clist(C.cz(ord(ch)) for ch in nm)}, {C.cz(orig)}, "
+            f"{C.cz(up['nr'])}, {C.cz(eff[nm])})" for nm, orig in m.get("streams", [])]
+
+
 def c_ymodel(m, ndraws):
     prog = C.clist(C.clist(c_yaction(a) for a in body) for body in m["prog"])
     lst = C.clist(C.clist(c_yaction(a) for a in body) for body in m.get("lst", []))
     subs = C.clist(f"({C.cnat(et)}, {C.cnat(l)})" for et, l in m.get("subs", []))
     stats = C.clist(f"({C.cnat(k)}, {SK[kind]}, {C.cnat(sid)})" for k, kind, sid in m.get("stats", []))
     tabs = [[] for _ in range(3)]
-    for nm, seed in m.get("streams", []):
+    for nm, seed in effective_seeds(m):
         tabs[STREAM_IX[nm]] = raw_outputs(seed, ndraws.get(nm, 0) + 2)
     streams = C.clist(C.clist(C.cz(k) for k in t) for t in tabs)
     pre = C.clist(f"({C.cz(pe[0])}, {C.cz(pe[1])}, {C.cnat(pe[2])})" for pe in m.get("pre", []))
@@ -622,7 +656,7 @@ def c_ycase(case, obs, mnames):
     for j, mk in enumerate(marks):
         c = case["cmds"][mk["cmd"]]
         mi = c[4] if len(c) > 4 else 0
-        seeds = dict((nm, sd) for nm, sd in case["models"][mi].get("streams", []))
+        seeds = dict((nm, sd) for nm, sd in effective_seeds(case["models"][mi]))
         hi = marks[j + 1]["draws"] if j + 1 < len(marks) else len(obs["draws"])
         seg = obs["draws"][mk["draws"]:hi]
         tabs = {nm: raw_outputs(sd, sum(1 for d in seg if d[0] == nm) + 1) for nm, sd in seeds.items()}
@@ -646,8 +680,15 @@ def c_ycase(case, obs, mnames):
 
 YPRELUDE = ["From Coq Require Import ZArith List.",
             "From PV Require Import Sim.Model Sim.Case Sim.Reinit Sim.Repro.",
-            "From PV Require Streams.Stream.",
+            "From PV Require Streams.Stream Streams.Seeds.",
             "Import ListNotations.",
+            "Definition seed_pred (q : bool * list (PV.Streams.Seeds.name * list Z) * PV.Streams.Seeds.name * Z * Z * Z) : bool := "
+            "let '(simple, tbl, n, orig, r, s) := q in "
+            "match (if simple then PV.Streams.Seeds.simple_update PV.Streams.Seeds.str_hash n orig r "
+            "else PV.Streams.Seeds.table_update tbl (PV.Streams.Seeds.simple_update PV.Streams.Seeds.str_hash) n orig r) with "
+            "| PV.Streams.Seeds.Val v => Z.eqb v s | _ => false end.",
+            "Fixpoint bad_seeds (i : nat) (l : list (bool * list (PV.Streams.Seeds.name * list Z) * PV.Streams.Seeds.name * Z * Z * Z)) : list nat := "
+            "match l with [] => [] | q :: r => if seed_pred q then bad_seeds (S i) r else i :: bad_seeds (S i) r end.",
             "Definition nint (lo hi k : Z) : Z := match PV.Streams.Stream.next_int_fixed lo hi k with "
             "PV.Streams.Stream.OInt z => z | _ => lo end."]
 
@@ -691,16 +732,21 @@ def ycoq_compare(pid, items, shard=60):
     files = []
     for g, grp in enumerate(groups):
         f = d / f"cases_{pid.lower()}y_{g}.v"
+        chk = sorted({t for i in grp for m in items[i][0]["models"] for t in seed_checks(m)})
         lines = list(YPRELUDE) + ["Definition cases : list ycase := [", ";\n".join(texts[i] for i in grp), "].",
                                   "Eval vm_compute in (ycodes_from nint 0 1 cases).",
-                                  "Eval vm_compute in (ycodes_from nint 0 2 cases)."]
+                                  "Eval vm_compute in (ycodes_from nint 0 2 cases).",
+                                  "Eval vm_compute in (bad_seeds 0 [" + "; ".join(chk) + "])."]
         f.write_text("\n".join(lines) + "\n")
         files.append(f)
     results = C.coqc_many(files)
     for g, (rc, out) in enumerate(results):
         lists = C.parse_nat_lists(out)
-        if rc != 0 or len(lists) != 2:
+        if rc != 0 or len(lists) != 3:
             return codes, f"coqc failed on {files[g]}: {out[-800:]}"
+        if lists[2]:
+            return codes, (f"the seeds the harness gives the streams under the library's updaters differ from what "
+                           f"Streams/Seeds.v (C13) predicts: entries {lists[2]} of the seed check in {files[g]}")
         for i in groups[g]:
             codes[i] = 0
         for jx in lists[0]:
